@@ -9,7 +9,7 @@ void harness(void)
 {
     xv_ghost_havoc();
     xv_td_havoc();
-    struct xcm_dns_query *q;
+    struct xcm_dns_query *q = xv_q_any();
     update_xpoll(q);
     if (xv_ar.getsock_n != 0 && xv_ar.gs_mask == 0 && xv_ar.to_null) XV_CANARY("in progress, c-ares wants nothing");
     if (xv_j == 15 && xv_ar.gs_mask < 0 && (xv_ar.gs_mask & 0x8000) != 0 && xv_xr.rf_live && xv_rf == xv_ar.gs_fd && xv_xr.rf_event == (EPOLLIN | EPOLLOUT)) XV_CANARY("slot 15 registered for reading and writing");
